@@ -703,14 +703,23 @@ def rule_divless(ctx, R):
                 gt0, le0 = "LT[%s,K1]=0" % X, "LT[%s,K1]=1" % X  # x > 0 in the normal form  not (x < 1)
                 return Seq(Star(gt0, "EQ[K0,%s[%s]]=1" % (ARR, X), "SET%s((%s Sub K1))" % (X, X)), Alt(Seq(le0), Seq(gt0, "EQ[K0,%s[%s]]=0" % (ARR, X))))
 
-            tail = Alt(
-                Seq("EQ[A,B]=0", "RET((A Lt B))"),
-                Seq("EQ[A,B]=1", "SETA((A Add K1))", "ITER(REV(Range::Range{K0,A}))", Star("EQ[LHS[%s],RHS[%s]]=1" % (E, E)), Alt(Seq("EQ[LHS[%s],RHS[%s]]=0" % (E, E), "RET((LHS[%s] Lt RHS[%s]))" % (E, E)), Seq("RET(K0)"))),
-            )
-            specs = [
-                Seq("SETA(([T]::len(LHS) Sub K1))", "SETB(([T]::len(RHS) Sub K1))", skip("A", "LHS"), skip("B", "RHS"), tail),
-                Seq("SETA(([T]::len(LHS) Sub K1))", "SETB(([T]::len(RHS) Sub K1))", skip("B", "RHS"), skip("A", "LHS"), tail),
-            ]
+            def tail_with(E, pre):
+                return Alt(
+                    Seq("EQ[A,B]=0", "RET((A Lt B))"),
+                    Seq("EQ[A,B]=1", *pre, "ITER(%s)" % E[5:-1], Star("EQ[LHS[%s],RHS[%s]]=1" % (E, E)), Alt(Seq("EQ[LHS[%s],RHS[%s]]=0" % (E, E), "RET((LHS[%s] Lt RHS[%s]))" % (E, E)), Seq("RET(K0)"))),
+                )
+
+            # the limb scan runs over 0..top+1 from the top; the bound is held in the cursor itself (a += 1), in
+            # either cursor (they are equal on this branch) or in a fresh local
+            tails = [tail_with(E, ["SETA((A Add K1))"]), tail_with("ELEM<REV(Range::Range{K0,B})>", ["SETB((B Add K1))"]),
+                     tail_with("ELEM<REV(Range::Range{K0,(A Add K1)})>", []), tail_with("ELEM<REV(Range::Range{K0,(B Add K1)})>", []),
+                     tail_with("ELEM<REV(RangeInclusive::new(K0,A))>", []), tail_with("ELEM<REV(RangeInclusive::new(K0,B))>", [])]
+            ia, ib = "SETA(([T]::len(LHS) Sub K1))", "SETB(([T]::len(RHS) Sub K1))"
+            specs = []
+            for init in ((ia, ib), (ib, ia)):
+                for sk in ((skip("A", "LHS"), skip("B", "RHS")), (skip("B", "RHS"), skip("A", "LHS"))):
+                    for tl in tails:
+                        specs.append(Seq(*init, *sk, tl))
             p_c01.check_lang_any(R, "less_core:definition", "magnitude comparison: ignore leading zero limbs; more significant limbs means larger; otherwise the most significant differing limb decides; equal is not less", d, specs, b.span)
     # ---- div_core
     L = LimbBody(fb, B + "div_core", {1: "LHS", 2: "RHS"})
